@@ -46,6 +46,6 @@ def main(argv):
     })
     rep.assumptions += ["TLC explores each per-instance product to fix-point (finite); instances are enumerated/sampled as stated in rule",
                         "projection faithful (harness/project.py)"]
-    if ok and not nt:
+    if ok and not nt and not rep.violations:
         raise tlc.MachineryError("vacuous: no input produced a branching synthetic block")
     return rep.finish()
